@@ -301,19 +301,21 @@ pub fn run(ctx: &Ctx, evidence: Option<&PathBuf>) -> i32 {
     // pairs that differ only in bit 5 of a NON-letter byte (a case fold done with a bit mask merges
     // them), and names that differ only by trailing NUL bytes (a zero-padded block comparison
     // cannot tell them apart)
-    for (a, b) in [('[', '{'), ('@', '`'), ('_', '\u{7f}'), ('^', '~'), ('\\', '|'), (']', '}'), ('1', '\u{11}'), ('0', '\u{10}'), ('-', '\r'), (' ', '\0')] {
-        for ctx_s in ["", "X_", "HTTP_ACCEPT"] {
-            dom.push(format!("{ctx_s}{a}"));
-            dom.push(format!("{ctx_s}{b}"));
-            dom.push(format!("{ctx_s}{a}Y"));
-            dom.push(format!("{ctx_s}{b}Y"));
+    if ctx.scale != Scale::Miri {
+        for (a, b) in [('[', '{'), ('@', '`'), ('_', '\u{7f}'), ('^', '~'), ('\\', '|'), (']', '}'), ('1', '\u{11}'), ('0', '\u{10}'), ('-', '\r'), (' ', '\0')] {
+            for ctx_s in ["", "X_", "HTTP_ACCEPT"] {
+                dom.push(format!("{ctx_s}{a}"));
+                dom.push(format!("{ctx_s}{b}"));
+                dom.push(format!("{ctx_s}{a}Y"));
+                dom.push(format!("{ctx_s}{b}Y"));
+            }
         }
-    }
-    for base in ["X_TOKEN", "A", "ABCDEFGHIJKLMNO", "ABCDEFGHIJKLMNOP", "ABCDEFGHIJKLMNOPQ"] {
-        dom.push(base.to_string());
-        dom.push(format!("{base}\0"));
-        dom.push(format!("{base}\0\0"));
-        dom.push(format!("\0{base}"));
+        for base in ["X_TOKEN", "A", "ABCDEFGHIJKLMNO", "ABCDEFGHIJKLMNOP", "ABCDEFGHIJKLMNOPQ"] {
+            dom.push(base.to_string());
+            dom.push(format!("{base}\0"));
+            dom.push(format!("{base}\0\0"));
+            dom.push(format!("\0{base}"));
+        }
     }
     dom.sort();
     dom.dedup();
